@@ -2,6 +2,7 @@ SPECIFICATION Spec
 CONSTANTS
   Mods <- MCMods
   Absent <- MCAbsent
+  Broken <- MCBroken
   Variant = "asfound"
   MaxHistory = 4
 INVARIANT HistoryIndependent
